@@ -40,7 +40,7 @@ def gen_ring(rng, nops):
         elif mode == 2: w = [("PF", 40), ("PoB", 38), ("PB", 3), ("PoF", 3)]
         elif mode == 3: w = [("PB", 30), ("PF", 30), ("PoF", 10), ("PoB", 10)] if can_push else [("PoF", 40), ("PoB", 40)]
         else: w = [("PB", 20), ("PF", 20), ("PoF", 18), ("PoB", 18)]
-        w += [("Q", 8), ("CL", 2), ("D", 2), ("CA", 3), ("MA", 2), ("CC", 2), ("MC", 2)]
+        w += [("Q", 8), ("MT", 2), ("CL", 2), ("D", 2), ("CA", 3), ("MA", 2), ("CC", 2), ("MC", 2)]
         tot = sum(x for _, x in w); pick = rng.below(tot); name = None
         for nme, x in w:
             if pick < x: name = nme; break
@@ -51,6 +51,7 @@ def gen_ring(rng, nops):
         elif name == "PoB" and l: ops.append("PoB,%d" % i); l.pop()
         elif name == "Q": ops.append("Q,%d" % i)
         elif name == "CL": ops.append("CL,%d" % i); v[1] = []
+        elif name == "MT": ops.append("MT,%d" % i); v[1] = []
         elif name == "D": ops.append("D,%d" % i); st[i] = None
         elif name in ("CA", "MA", "CC", "MC"):
             j = rng.below(3)
